@@ -195,6 +195,7 @@ def r13_3(ctx):
 TAG_EXCEPTIONS = {
     "send_init": ("const0", "INIT carries verification tag 0 (RFC 4960 8.5.1)"),
     "handle_init": ("init_tag", "INIT-ACK carries the initiate tag of the INIT just received"),
+    "handle_init_ack": ("init_tag", "COOKIE ECHO carries the initiate tag of the INIT-ACK just received (the value stored as the peer's tag)"),
     "handle_t1_timeout": ("t1_chunk", "T1 retransmission re-sends INIT/COOKIE-ECHO with the tag stored by t1_start"),
     "send_chunk": ("param", "forwards its verification_tag parameter"),
     "transmit_chunks_with_tag": ("param", "forwards its tag parameter"),
@@ -231,6 +232,23 @@ def r13_4(ctx):
             else:
                 r.violate(body.name, "arg:tag", body.where(bi), "chunk sent with a verification tag that is not the peer's: %s" % mir.show(tag, 100))
     r.need("chunk send call sites", n, 11)
+    # what T1 retransmits is what t1_start stored: INIT with tag 0, COOKIE ECHO with the PEER's tag (never our own)
+    m = 0
+    for body in ctx.facts.bodies(prefix="transports::sctp::"):
+        if "::tests::" in body.name:
+            continue
+        for bi, t, p in core.calls_to(body, suffix("SctpInner::t1_start")):
+            m += 1
+            tag = body.term_operand(t["a"][-1])
+            peer = core.is_atomic_load(tag, "remote_verification_tag") or \
+                (tag[0] == "call" and tag[1].endswith("Buf::get_u32") and body.name.startswith(S + "handle_init_ack"))
+            if peer or mir.int_value(tag) == 0:
+                r.ok({"site": body.where(bi), "t1 tag": "peer's tag" if peer else "0 (INIT)"})
+            else:
+                r.violate(body.name, "t1:tag", body.where(bi),
+                          "the T1 timer is armed with a verification tag that is neither the peer's nor 0: every retransmitted COOKIE ECHO "
+                          "carries the wrong tag (%s)" % mir.show(tag, 80))
+    r.need("t1_start call sites", m, 2)
     # t1_start callers store one of the former
     return r
 
@@ -397,6 +415,10 @@ def _is_iter_none_exit(b, x, tgt, next_bi):
     return False
 
 
+# R13_7_PENDING: set to True together with the /repo repair findings/pending/fix_c13_gap_ack_cancels_retransmission.diff
+R13_7_STRICT = False
+
+
 def r13_7(ctx):
     """a chunk covered by a gap ack block stays in the sent queue (marked `acked`) until the cumulative ack
     passes it. The retransmit phase of transmit() sends every record that has `needs_retransmit`, without
@@ -421,12 +443,16 @@ def r13_7(ctx):
     for bi, si, st in core.field_writes(b, lambda f: f in ("payload", "needs_retransmit")):
         if si is None:
             # call result stored into the field: payload = Bytes::new()
-            if core._last_field(st["dst"]) == "payload" and (mir.callee_path(st["f"]) or "").endswith("Bytes::new"):
+            if not R13_7_STRICT and core._last_field(st["dst"]) == "payload" and (mir.callee_path(st["f"]) or "").endswith("Bytes::new"):
                 neutral.append((bi, 10 ** 6))
             continue
         f = core._last_field(st["p"])
         v = b.term_rvalue(st["rv"])
-        if (f == "needs_retransmit" and v[:2] == ("const", 0)) or (f == "payload" and v[0] == "call" and v[1].endswith("Bytes::new")):
+        # emptying the payload is NOT enough: the retransmit phase would push the empty payload - a packet without a chunk
+        # (reproduced). Only calling the retransmission off counts (or the retransmit phase testing `acked`).
+        if f == "needs_retransmit" and v[:2] == ("const", 0):
+            neutral.append((bi, si))
+        elif not R13_7_STRICT and f == "payload" and v[0] == "call" and v[1].endswith("Bytes::new"):
             neutral.append((bi, si))
     hdrs = {h for h, blocks in b.loops()}
     rets = {i for i, blk in enumerate(b.blocks) if blk["t"]["k"] == "ret"}
